@@ -586,7 +586,7 @@ func (f *Frame) callByContract(st *State, call *ast.CallExpr, fn *types.Func, ct
 	_, typeArgs := f.calleeTypeArgs(call, fn)
 	sig := fn.Type().(*types.Signature)
 	var pkg *types.Package = fn.Pkg()
-	pre := &SpecEnv{names: map[string]Val{}, pkg: pkg, typeArgs: typeArgs}
+	pre := &SpecEnv{names: map[string]Val{}, pkg: pkg, typeArgs: typeArgs, macros: ct.macros()}
 	for _, a := range args {
 		if a.name != "" && a.name != "_" {
 			pre.names[a.name] = a.val
@@ -605,7 +605,7 @@ func (f *Frame) callByContract(st *State, call *ast.CallExpr, fn *types.Func, ct
 		}
 	}()
 	// post state: results fresh; modified pointees fresh
-	post := &SpecEnv{names: map[string]Val{}, old: pre, pkg: pkg, typeArgs: typeArgs}
+	post := &SpecEnv{names: map[string]Val{}, old: pre, pkg: pkg, typeArgs: typeArgs, macros: ct.macros()}
 	for kk, v := range pre.names {
 		post.names[kk] = v
 	}
@@ -655,9 +655,6 @@ func (f *Frame) callByContract(st *State, call *ast.CallExpr, fn *types.Func, ct
 	}
 	func() {
 		defer f.specGuard(call, "postcondition of "+ct.Name)
-		for _, l := range ct.Lets {
-			post.names[l.Name] = f.specEvalIn(st, l.Expr, post)
-		}
 		for _, e := range ct.Ensures {
 			st.assume(f.specBool(st, e.Expr, post))
 		}
